@@ -363,6 +363,15 @@ func fnSetRange(ctx *cmdContext, args map[string]any) (output respValue, err err
 	offset := args["offset"].(int64)
 	value := args["value"].(string)
 
+	if offset < 0 {
+		output.data = respErrorString("ERR offset is out of range")
+		return
+	}
+	if offset+int64(len(value)) > 512*1024*1024 || offset > 512*1024*1024 {
+		output.data = respErrorString("ERR string exceeds maximum allowed size (proto-max-bulk-len)")
+		return
+	}
+
 	result := ctx.dsc.setRange(key, int(offset), value)
 	output.data = result.data
 	return
